@@ -2165,6 +2165,13 @@ func (f *VFSFile) FileSize() (size int64, err error) {
 	}
 
 	f.mu.Lock()
+	// The commit of the latest indexed file is the database size. Index entries
+	// above it, if any, are stale and never read: they lie beyond this size.
+	if f.commit > 0 && len(f.pending) == 0 && len(f.dirty) == 0 {
+		size = int64(f.commit) * int64(pageSize)
+		f.mu.Unlock()
+		return size, nil
+	}
 	for pgno := range f.index {
 		if v := int64(pgno) * int64(pageSize); v > size {
 			size = v
@@ -2263,13 +2270,16 @@ func (f *VFSFile) Unlock(elock sqlite3vfs.LockType) error {
 
 	// Copy pending index to main index and invalidate affected pages in cache.
 	if f.pendingReplace {
-		// Replace entire index
-		count := len(f.index)
-		f.index = f.pending
-		f.logger.Debug("cache invalidated all pages", "count", count)
-		// Invalidate entire cache since we replaced the index
-		f.cache.Purge()
-	} else if len(f.pending) > 0 {
+		// A shrink was polled while the lock was held: the pages above the new
+		// size are gone, every other page keeps its latest version.
+		for k := range f.index {
+			if k > f.commit {
+				delete(f.index, k)
+				f.cache.Remove(k)
+			}
+		}
+	}
+	if len(f.pending) > 0 {
 		// Merge pending into index
 		count := len(f.pending)
 		for k, v := range f.pending {
@@ -2548,7 +2558,9 @@ func (f *VFSFile) pollReplicaClient(ctx context.Context) error {
 		replaceIndex = true
 		baseCommit = commit1
 		newCommit = commit1
-		combined = idx1
+		for k, v := range idx1 {
+			combined[k] = v
+		}
 	} else {
 		for k, v := range idx1 {
 			combined[k] = v
@@ -2579,17 +2591,19 @@ func (f *VFSFile) pollReplicaClient(ctx context.Context) error {
 		f.pendingReplace = false
 	}
 	if replaceIndex {
-		if f.lockType < sqlite3vfs.LockShared {
-			f.index = make(map[uint32]ltx.PageIndexElem)
-			target = f.index
-			targetIsMain = true
-			f.pendingReplace = false
-		} else {
-			f.pending = make(map[uint32]ltx.PageIndexElem)
-			target = f.pending
-			targetIsMain = false
-			f.pendingReplace = true
+		// The database shrank: only the pages above the new size are gone, every
+		// other page keeps its latest version. Pages re-created by a later growth
+		// are part of combined. While a reader holds a lock the main index is
+		// left alone and truncated on unlock.
+		for k := range target {
+			if k > newCommit {
+				delete(target, k)
+				if targetIsMain {
+					f.cache.Remove(k)
+				}
+			}
 		}
+		f.pendingReplace = !targetIsMain
 	}
 	for k, v := range combined {
 		target[k] = v
@@ -2670,8 +2684,14 @@ func (f *VFSFile) pollLevel(ctx context.Context, level int, prevMaxTXID ltx.TXID
 		}
 
 		if hdr.Commit < lastCommit {
+			// A shrinking transaction holds only the pages it changed, so keep
+			// what earlier files delivered below the new size.
 			replaceIndex = true
-			index = make(map[uint32]ltx.PageIndexElem)
+			for k := range index {
+				if k > hdr.Commit {
+					delete(index, k)
+				}
+			}
 		}
 		lastCommit = hdr.Commit
 		newCommit = hdr.Commit
